@@ -419,7 +419,7 @@ func c09run(k *c09case, generous bool) (o c09obs) {
 		at    time.Time
 	}
 	rc := make(chan ret, 1)
-	sc := NewScanner(WithDialTimeout(dialT), WithDataTimeout(dataT))
+	sc := c09scanner(dialT, dataT)
 	req := &scan.Request{DstIP: s.ip, DstPort: uint16(s.port)}
 	t0 := time.Now()
 	go func() {
@@ -503,6 +503,10 @@ func c09run(k *c09case, generous bool) (o c09obs) {
 			fail("record-type:"+k.name(), "result of unexpected type %T", r.res)
 		case sr.IP != s.ip.String() || int(sr.Port) != s.port || sr.ScanType != "socks" || sr.Version != 5 || sr.ID() != o.Target:
 			fail("record-fields:"+k.name(), "record {scan:%q version:%d ip:%q port:%d id:%q} does not carry the probed target %s", sr.ScanType, sr.Version, sr.IP, sr.Port, sr.ID(), o.Target)
+		default:
+			c09scanMu.Lock()
+			c09kept = append(c09kept, c09keptRec{sr, o.Target, s.ip.String(), s.port, k.name()})
+			c09scanMu.Unlock()
 		}
 		if o.Want == "none" {
 			fail("record-without-0500:"+k.name(), "a proxy was reported for %s although the server's first bytes were %q (accepted=%v)", o.Target, o.Sent, accepted)
@@ -532,6 +536,34 @@ func c09run(k *c09case, generous bool) (o c09obs) {
 		}
 	}
 	return
+}
+
+// One Scanner per timeout setting serves every case, concurrently, the way one scanner serves all
+// workers of `sx socks`; the records it hands out are kept and read again at the very end: a record
+// must still describe its own probe after any number of later probes (results wait in a channel
+// before they are printed).
+var (
+	c09scanMu   sync.Mutex
+	c09scanners = map[[2]time.Duration]*Scanner{}
+	c09kept     []c09keptRec
+)
+
+type c09keptRec struct {
+	res    *ScanResult
+	target string
+	ip     string
+	port   int
+	name   string
+}
+
+func c09scanner(dialT, dataT time.Duration) *Scanner {
+	c09scanMu.Lock()
+	defer c09scanMu.Unlock()
+	k := [2]time.Duration{dialT, dataT}
+	if c09scanners[k] == nil {
+		c09scanners[k] = NewScanner(WithDialTimeout(dialT), WithDataTimeout(dataT))
+	}
+	return c09scanners[k]
 }
 
 func init() { drv.Register("c09", verifC09) }
@@ -657,4 +689,18 @@ func verifC09(c *drv.Ctx) {
 	}
 	close(ch)
 	wg.Wait()
+	// the records handed out earlier, read again now
+	seen := map[*ScanResult]string{}
+	for _, kr := range c09kept {
+		if other, dup := seen[kr.res]; dup {
+			c.Fail("record-shared", fmt.Sprintf("the probes of %s (case %s) and of %s returned the very same record object: every result must be a record of its own", kr.target, kr.name, other), nil)
+			break
+		}
+		seen[kr.res] = kr.target
+		if kr.res.IP != kr.ip || int(kr.res.Port) != kr.port || kr.res.ScanType != "socks" || kr.res.Version != 5 {
+			c.Fail("record-changed-later", fmt.Sprintf("the record returned for the probe of %s (case %s) was correct when returned and now reads {scan:%q version:%d ip:%q port:%d}: a later probe rewrote an earlier result", kr.target, kr.name, kr.res.ScanType, kr.res.Version, kr.res.IP, kr.res.Port), nil)
+			break
+		}
+	}
+	c.Add("records_reread_at_end", int64(len(c09kept)))
 }
